@@ -1,5 +1,6 @@
 import FeatherModel.Base.Sexp
 import FeatherModel.Base.AListOps
+import FeatherModel.Model.Descriptor
 
 /-!
 # Model of `dukebox/src/remap.rs` (jar remapping) over the reference skeleton of duke's class tree
@@ -11,17 +12,25 @@ nest / permitted-subclass / record entry or a signature keeps its own field; eve
 (flags, version, instruction operands and labels, constants, line numbers, type-annotation targets, …) is lumped into an
 `Opaque` value (`shape`, `op`, …) which `remap` can only copy.
 
-`remap` follows `remap.rs` impl by impl **as it is**, including what it leaves alone or drops:
+`remap` follows `remap.rs` impl by impl **as it is**, including what it leaves alone:
 
 * `ClassSignature` / `FieldSignature` / `MethodSignature`: returned unchanged (`return Ok(self)` before the `todo!`);
 * `InvokeDynamic` / `ConstantDynamic`: `name` copied (`// TODO: remap`); descriptor, handle and arguments remapped
   (the descriptor since the commit "jar remapping renames the classes in invokedynamic and dynamic-constant descriptors");
-* `ElementValue::Enum`: the type descriptor is remapped, `const_name` copied (`// TODO: this one needs remapping!`);
+* `ElementValue::Enum`: the type descriptor is remapped; the constant is renamed through `map_field` on the class the
+  descriptor names (`map_enum_const_name`; copied when the descriptor is not that of a class or the constant cannot be
+  a field name) — since the commit "jar remapping renames the constant of an enum element value in annotations";
 * `ElementValuePair.name` copied (it names a method of the annotation interface);
-* `InnerClass.inner_name` copied (`map_inner_class_name` returns its argument);
+* `InnerClass.inner_name`: when it is the simple name the class name spells out (`simple_name`: after the last `$` of
+  the last `/`-separated part, leading digits skipped) it becomes the simple name the remapped class name spells out, if
+  that has a `$`; copied otherwise — since the commit "jar remapping renames the inner name of an inner class along
+  with the class";
 * `Lv.name`, `MethodParameter` copied;
-* `ClassFile.module`, `module_packages`, `module_main_class` := `None`; `record_components` := `Vec::new()`;
-  `attributes` := `Vec::new()` on class, field, method and code.
+* `RecordComponent`: name and descriptor through `map_field` on the class being remapped (descriptor alone when the name
+  cannot be a field name), annotations remapped, signature through the identity impl, attributes copied;
+* `Module`: `uses`, `provides` (service and implementations) through `map_class_any`, everything else copied;
+  `module_packages` copied, `module_main_class` through `map_class_any`;
+* `attributes` (unknown attributes) copied on class, field, method, code and record component.
 
 The remapper is abstract (`Remapper`): the four primitive answers every `BRemapper` gives — `map_class`,
 `map_desc` (one function behind `map_field_desc`, `map_method_desc`, `map_return_desc` and array class names),
@@ -97,6 +106,27 @@ def mapMethodRef (r : Remapper) (m : MemberRef) : Option MemberRef :=
     match mapClassAny r m.cls with
     | none => none
     | some c => some ⟨c, n, d⟩
+
+/-- `FieldName::check_valid` = `is_valid_unqualified_name` (model: `Descriptor.validUnqualified`, C18) -/
+def validFieldName (n : JStr) : Bool := Descriptor.validUnqualified n
+
+/-- `let Ok(ParsedFieldDescriptor(Type::Object(enum_class))) = type_name.parse()`: the class a field descriptor names
+(model of `FieldDescriptorSlice::parse`: `Descriptor.parseField`, C18) -/
+def objectClassOf (t : JStr) : Option JStr :=
+  match Descriptor.parseField t with
+  | some (.obj k) => some k
+  | _ => none
+
+/-- `map_enum_const_name` (nested fn of `impl Mappable for ElementValue`) -/
+def mapEnumConstName (r : Remapper) (t c : JStr) : Option JStr :=
+  match objectClassOf t with
+  | none => some c
+  | some k =>
+    if validFieldName c then
+      match r.mapField k c t with
+      | none => none
+      | some (n, _) => some n
+    else some c
 
 /-! ## The class tree, reduced -/
 
@@ -232,11 +262,28 @@ structure Enclosing where
   cls : JStr
   method : Option (JStr × JStr)
 
-/-- `RecordComponent`: name and descriptor are public, the rest (signature, annotations, attributes) is crate-private -/
+/-- `RecordComponent { name, descriptor, signature, annotations ×2, type annotations ×2, attributes }` -/
 structure RecordComponent where
   name : JStr
   desc : JStr
-  rest : Opaque
+  signature : Option JStr
+  rva : List Annotation
+  ria : List Annotation
+  rvta : List TypeAnnotation
+  rita : List TypeAnnotation
+  attributes : List Opaque
+
+/-- `ModuleProvides { name, provides_with }` -/
+structure ModuleProvides where
+  name : JStr
+  providesWith : List JStr
+
+/-- `Module { name, flags, version, requires, exports, opens, uses, provides }` -/
+structure Module where
+  /-- `name, flags, version, requires, exports, opens`: module and package names, flags, versions -/
+  shape : Opaque
+  uses : List JStr
+  provides : List ModuleProvides
 
 structure ClassFile where
   /-- `version, access, has_deprecated_attribute, has_synthetic_attribute, source_file, source_debug_extension` -/
@@ -253,8 +300,7 @@ structure ClassFile where
   ria : List Annotation
   rvta : List TypeAnnotation
   rita : List TypeAnnotation
-  /-- `Module` is crate-private: opaque -/
-  module : Option Opaque
+  module : Option Module
   modulePackages : Option (List JStr)
   moduleMainClass : Option JStr
   nestHost : Option JStr
@@ -294,9 +340,12 @@ mutual
   def remapElementValue (r : Remapper) : ElementValue → Option ElementValue
     | .object o => some (.object o)
     | .enum t c =>
-      match r.mapDesc t with
+      match mapEnumConstName r t c with
       | none => none
-      | some t' => some (.enum t' c)
+      | some c' =>
+        match r.mapDesc t with
+        | none => none
+        | some t' => some (.enum t' c')
     | .cls d =>
       match r.mapDesc d with
       | none => none
@@ -436,7 +485,7 @@ def remapCode (r : Remapper) (c : Code) : Option Code :=
           match omapM (remapTypeAnnotation r) c.rita with
           | none => none
           | some rita =>
-            some { c with insns := insns, exceptions := excs, lvs := lvs, rvta := rvta, rita := rita, attributes := [] }
+            some { c with insns := insns, exceptions := excs, lvs := lvs, rvta := rvta, rita := rita }
 
 /-- `impl MappableWithClassName for Field` -/
 def remapField (r : Remapper) (thisClass : JStr) (f : Field) : Option Field :=
@@ -455,7 +504,7 @@ def remapField (r : Remapper) (thisClass : JStr) (f : Field) : Option Field :=
           match omapM (remapTypeAnnotation r) f.rita with
           | none => none
           | some rita =>
-            some { f with name := n, desc := d, rva := rva, ria := ria, rvta := rvta, rita := rita, attributes := [] }
+            some { f with name := n, desc := d, rva := rva, ria := ria, rvta := rvta, rita := rita }
 
 /-- `impl MappableWithClassName for Method` -/
 def remapMethod (r : Remapper) (thisClass : JStr) (m : Method) : Option Method :=
@@ -484,16 +533,89 @@ def remapMethod (r : Remapper) (thisClass : JStr) (m : Method) : Option Method :
                 | none => none
                 | some ad =>
                   some { m with name := n, desc := d, code := code, exceptions := excs, rva := rva, ria := ria,
-                                rvta := rvta, rita := rita, annotationDefault := ad, attributes := [] }
+                                rvta := rvta, rita := rita, annotationDefault := ad }
 
-/-- `impl Mappable for InnerClass`: `inner_name` copied (`map_inner_class_name` is the identity) -/
+/-- the `let (name, descriptor) = match FieldName::try_from(self.name.as_inner()) { … }` of the impl below -/
+def mapRecordDecl (r : Remapper) (thisClass n d : JStr) : Option (JStr × JStr) :=
+  if validFieldName n then r.mapField thisClass n d else (r.mapDesc d).map fun d' => (n, d')
+
+/-- `impl MappableWithClassName for RecordComponent`: the component belongs to the field `this_class.name:descriptor`;
+a name that cannot be a field name is kept and the descriptor alone is remapped (`RecordName::try_from` never fails:
+`RecordName::check_valid` is `Ok(())`) -/
+def remapRecordComponent (r : Remapper) (thisClass : JStr) (c : RecordComponent) : Option RecordComponent :=
+  match mapRecordDecl r thisClass c.name c.desc with
+  | none => none
+  | some (n, d) =>
+    match omapM (remapAnnotation r) c.rva with
+    | none => none
+    | some rva =>
+      match omapM (remapAnnotation r) c.ria with
+      | none => none
+      | some ria =>
+        match omapM (remapTypeAnnotation r) c.rvta with
+        | none => none
+        | some rvta =>
+          match omapM (remapTypeAnnotation r) c.rita with
+          | none => none
+          | some rita =>
+            some { c with name := n, desc := d, rva := rva, ria := ria, rvta := rvta, rita := rita }
+
+/-- `impl Mappable for ModuleProvides` -/
+def remapModuleProvides (r : Remapper) (p : ModuleProvides) : Option ModuleProvides :=
+  match mapClassAny r p.name with
+  | none => none
+  | some n =>
+    match omapM (mapClassAny r) p.providesWith with
+    | none => none
+    | some ws => some ⟨n, ws⟩
+
+/-- `impl Mappable for Module`: only `uses` and `provides` name classes -/
+def remapModule (r : Remapper) (m : Module) : Option Module :=
+  match omapM (mapClassAny r) m.uses with
+  | none => none
+  | some uses =>
+    match omapM (remapModuleProvides r) m.provides with
+    | none => none
+    | some provides => some { m with uses := uses, provides := provides }
+
+def DOLLAR : Nat := 36
+def SLASH : Nat := 47
+
+/-- `JavaStr::rsplit_once(c)`, second component: what follows the last `c` -/
+def afterLast (c : Nat) : JStr → Option JStr
+  | [] => none
+  | x :: xs =>
+    match afterLast c xs with
+    | some t => some t
+    | none => if x = c then some xs else none
+
+/-- `JavaCodePoint::is_ascii_digit` -/
+def isAsciiDigit (c : Nat) : Bool := 48 ≤ c && c ≤ 57
+
+/-- `simple_name` (nested fn of `impl Mappable for InnerClass`) -/
+def simpleName (n : JStr) : Option JStr :=
+  let lastPart := match afterLast SLASH n with | some p => p | none => n
+  match afterLast DOLLAR lastPart with
+  | none => none
+  | some afterDollar => some (afterDollar.dropWhile isAsciiDigit)
+
+/-- `map_inner_class_name` -/
+def mapInnerClassName (name newName innerName : JStr) : JStr :=
+  if simpleName name = some innerName then
+    match simpleName newName with
+    | some newInnerName => newInnerName
+    | none => innerName
+  else innerName
+
+/-- `impl Mappable for InnerClass` -/
 def remapInnerClass (r : Remapper) (i : InnerClass) : Option InnerClass :=
   match mapClassAny r i.inner with
   | none => none
   | some inner =>
     match ooptM (mapClassAny r) i.outer with
     | none => none
-    | some outer => some { i with inner := inner, outer := outer }
+    | some outer =>
+      some { i with inner := inner, outer := outer, innerName := i.innerName.map (mapInnerClassName i.inner inner) }
 
 /-- `impl Mappable for EnclosingMethod` -/
 def remapEnclosing (r : Remapper) (e : Enclosing) : Option Enclosing :=
@@ -542,6 +664,12 @@ def remapClass (r : Remapper) (c : ClassFile) : Option ClassFile :=
   match omapM (remapTypeAnnotation r) c.rita with
   | none => none
   | some rita =>
+  match ooptM (remapModule r) c.module with
+  | none => none
+  | some module =>
+  match ooptM (mapClassAny r) c.moduleMainClass with
+  | none => none
+  | some moduleMainClass =>
   match ooptM (mapClassAny r) c.nestHost with
   | none => none
   | some nestHost =>
@@ -551,12 +679,14 @@ def remapClass (r : Remapper) (c : ClassFile) : Option ClassFile :=
   match ooptM (omapM (mapClassAny r)) c.permittedSubclasses with
   | none => none
   | some permittedSubclasses =>
+  match omapM (remapRecordComponent r c.name) c.recordComponents with
+  | none => none
+  | some recordComponents =>
     some { c with
       name := name, superClass := superClass, interfaces := interfaces, fields := fields, methods := methods,
       innerClasses := innerClasses, enclosingMethod := enclosingMethod, rva := rva, ria := ria, rvta := rvta,
-      rita := rita, module := none, modulePackages := none, moduleMainClass := none, nestHost := nestHost,
-      nestMembers := nestMembers, permittedSubclasses := permittedSubclasses, recordComponents := [],
-      attributes := [] }
+      rita := rita, module := module, moduleMainClass := moduleMainClass, nestHost := nestHost,
+      nestMembers := nestMembers, permittedSubclasses := permittedSubclasses, recordComponents := recordComponents }
 
 /-! ## Jar level: `remap`, `remap_jar_entry_name_java` -/
 
